@@ -71,7 +71,7 @@ pub fn generate(g: &Grammar) -> Vec<Vec<Op>> {
 		after_begin_activity: false,
 	};
 	fn rec(g: &Grammar, st: &mut GenState, cur: &mut Vec<Op>, out: &mut Vec<Vec<Op>>) {
-		if st.began && st.after_begin_activity {
+		if (st.began && st.after_begin_activity) || (g.max_readers == 0 && matches!(cur.last(), Some(Op::P(_)))) {
 			out.push(cur.clone());
 		}
 		if cur.len() >= g.max_len {
